@@ -587,10 +587,19 @@ func runInBubble(p plan) (res vk.Result) {
 					n0[c.in] = c.in.stub.Count(stubs.CResolverError)
 				}
 			}
+			c0 := map[*inst]int{}
+			for _, e := range m.cache {
+				c0[e.in] = e.in.stub.Count(stubs.CResolverError)
+			}
 			pb.ResolverError(errors.New("resolver broke"))
 			for in, n := range n0 {
 				if in.stub.Count(stubs.CResolverError) != n+1 {
 					return vk.Bad("%s: ResolverError not forwarded exactly once to started child p%d", desc, in.name)
+				}
+			}
+			for in, n := range c0 {
+				if in.stub.Count(stubs.CResolverError) != n {
+					return vk.Bad("%s: ResolverError reached the policy of stopped child p%d (I2: priorities below the one in use are stopped)", desc, in.name)
 				}
 			}
 		case opExitIdle:
